@@ -88,6 +88,7 @@ MUST_IFC = [
     'LLIST', 'LLIST 10-20', 'EDIT 10', 'EDIT 40', 'SAVE "S1"', 'SAVE "S2",A', 'SAVE "SCRN:",A', 'SAVE "LPT1:",A',
     'PRINT PEEK(0)', 'X=PEEK(1450)', 'BSAVE "B1",0,1000', 'MERGE "M.BAS"', 'CHAIN MERGE "M.BAS"',
     'CHAIN MERGE "M.BAS",15,ALL', '10 REM x', '15 PRINT 1', '40', '65000 X=1',
+    'CHAIN MERGE "M.BAS",,DELETE 30-40', 'CHAIN MERGE "M.BAS",,ALL,DELETE 20-60', 'CHAIN MERGE "M.BAS",15,DELETE 50-50',
 ]
 
 TARGETED = MUST_IFC + [
@@ -107,7 +108,8 @@ TARGETED = MUST_IFC + [
 
 READERS = [
     'LIST', 'LLIST', 'EDIT 10', 'SAVE "S1"', 'SAVE "S2",A', 'SAVE "P2",P', 'PRINT PEEK(4720)', 'BSAVE "B",0,9999',
-    'MERGE "M.BAS"', 'CHAIN MERGE "M.BAS"', '15 X=1', 'DELETE 30', 'RENUM', 'POKE 1450,0', 'DEF SEG', 'DEF SEG=0',
+    'MERGE "M.BAS"', 'CHAIN MERGE "M.BAS"', 'CHAIN MERGE "M.BAS",,DELETE 30-40', 'CHAIN MERGE "M.BAS",,ALL,DELETE 50-60',
+    '15 X=1', 'DELETE 30', 'RENUM', 'POKE 1450,0', 'DEF SEG', 'DEF SEG=0',
     'AUTO', 'RUN', 'ON ERROR GOTO 80', 'ERROR 5', 'TRON', 'CONT', 'GOSUB 80', 'LOAD "P2.BAS"', 'CLEAR',
     'RESTORE', 'READ Q$', 'PRINT Q$', 'KEY OFF', 'X=1',
     # statements that replace the program, failing before they do
@@ -321,6 +323,27 @@ def _run_sequence(part, mount, keep, base, ref, stmts, ctx, must_ifc=False, must
                     case)
             if r.exit:
                 return
+        if must_ifc and not trap:
+            # every statement was refused: "the program still runs exactly as its unprotected original", and SAVE ,P
+            # still writes the file it was loaded from
+            r = H.run(s, b'SAVE "PZ",P')
+            try:
+                with open(os.path.join(mount, 'PZ.BAS'), 'rb') as f:
+                    data = f.read()
+            except (IOError, OSError):
+                data = None
+            if r.err is not None or r.exc is not None or data != keep['P.BAS']:
+                part.violation('refused-statement-changed-program/%s/save-p-differs' % _keyword(stmts[-1]),
+                               'context %s, after %r: SAVE ,P gave %r and %s' % (
+                                   ctx, stmts, r.err if r.exc is None else r.exc,
+                                   'no file' if data is None else 'a file that differs from the original' if data != keep['P.BAS'] else 'the same file'), case)
+            r = H.run(s, b'RUN')
+            vs = {v: s.get_variable(v) for v in VARNAMES}
+            if r.out != ref[0] or r.err is not None or vs != ref[1]:
+                part.violation('refused-statement-changed-program/%s/run-differs' % _keyword(stmts[-1]),
+                               'context %s, after %r: RUN printed %r (error %r), original %r; variables %s' % (
+                                   ctx, stmts, r.out, r.err, ref[0], 'same' if vs == ref[1] else 'differ'), case)
+            part.n += 2
     finally:
         try:
             s.close()
